@@ -351,12 +351,13 @@ class DPMultiheadAttention(nn.Module):
         attn_output = torch.bmm(attn_output_weights, v)
         assert list(attn_output.size()) == [bsz * self.num_heads, tgt_len, head_dim]
 
+        # (bsz * num_heads, tgt_len, head_dim) -> (tgt_len, bsz, embed_dim): heads of
+        # one sample are concatenated along the embedding axis
+        attn_output = (
+            attn_output.transpose(0, 1).contiguous().view(tgt_len, bsz, embed_dim)
+        )
         if self.batch_first:
-            attn_output = attn_output.contiguous().view(bsz, tgt_len, embed_dim)
-        else:
-            attn_output = (
-                attn_output.transpose(0, 1).contiguous().view(tgt_len, bsz, embed_dim)
-            )
+            attn_output = attn_output.transpose(0, 1)
         attn_output = self.out_proj(attn_output)
 
         if need_weights:
